@@ -102,6 +102,12 @@ func (u *Unit) typeFacts(st *State, v Term, t types.Type) {
 		}
 	case *types.Pointer, *types.Map, *types.Chan, *types.Signature:
 		u.assume("(< (rootid " + v + ") " + u.get(st, "alloc") + ")")
+		if p, ok := tt.(*types.Pointer); ok {
+			if _, isStruct := p.Elem().Underlying().(*types.Struct); isStruct {
+				// pointers of different struct types never alias
+				u.assume(fmt.Sprintf("(=> (not (= %s null)) (= (dyntype %s) %d))", v, v, u.P.tagOf(t)))
+			}
+		}
 	case *types.Interface:
 		u.assume("(< (rootid (val " + v + ")) " + u.get(st, "alloc") + ")")
 		u.assume("(>= (tag " + v + ") 0)")
